@@ -49,7 +49,7 @@ def make_model(rng):
             if t["name"] not in BUILTIN_SCALARS: defs.append({"kind": "scalar", "name": t["name"]})
             continue
         if k == "enum":
-            vals = [{"name": v, "deprecated": (rng.choice(["No longer supported", "use other"]) if rng.random() < 0.2 else None)} for v in t["values"]]
+            vals = [{"name": v, "deprecated": (rng.choice(["No longer supported", "use other", ""]) if rng.random() < 0.2 else None)} for v in t["values"]]
             cut = rng.randint(1, len(vals)) if rng.random() < 0.4 else len(vals)
             defs.append({"kind": "enum", "name": t["name"], "values": vals[:cut]})
             if cut < len(vals): exts.append({"kind": "enum", "name": t["name"], "values": vals[cut:]})
@@ -57,7 +57,7 @@ def make_model(rng):
             fields = []
             for f in t["fields"]:
                 fields.append({"name": f["name"], "args": f["args"], "type": f["type"],
-                               "deprecated": (rng.choice(["No longer supported", "old field"]) if rng.random() < 0.15 else None),
+                               "deprecated": (rng.choice(["No longer supported", "old field", ""]) if rng.random() < 0.15 else None),
                                "hidden": rng.random() < 0.08})
             cut = rng.randint(1, len(fields)) if rng.random() < 0.4 else len(fields)
             d = {"kind": k, "name": t["name"], "fields": fields[:cut]}
@@ -125,7 +125,7 @@ def make_model(rng):
 
 def print_field(f):
     dep = ""
-    if f.get("deprecated"):
+    if f.get("deprecated") is not None:
         dep = " @deprecated" if f["deprecated"] == "No longer supported" else f' @deprecated(reason: {json.dumps(f["deprecated"])})'
     hid = " @nonIntrospectable" if f.get("hidden") else ""
     return f"  {f['name']}{print_args(f['args'])}: {tstr(f['type'])}{dep}{hid}"
@@ -135,7 +135,7 @@ def print_def(d, ext=False):
     k = d["kind"]
     if k == "scalar": return f"scalar {d['name']}"
     if k == "enum":
-        vals = " ".join(v["name"] + ("" if not v.get("deprecated") else (" @deprecated" if v["deprecated"] == "No longer supported" else f' @deprecated(reason: {json.dumps(v["deprecated"])})')) for v in d["values"])
+        vals = " ".join(v["name"] + ("" if v.get("deprecated") is None else (" @deprecated" if v["deprecated"] == "No longer supported" else f' @deprecated(reason: {json.dumps(v["deprecated"])})')) for v in d["values"])
         return f"{pre}enum {d['name']} {{ {vals} }}"
     if k in ("object", "interface"):
         kw = "type" if k == "object" else "interface"
@@ -241,8 +241,8 @@ def compare(M, spec, named_spec, data):
             if set(svv) != set(evv): pr.append(f"{n}: enum values {sorted(evv)} != declared {sorted(svv)}")
             for vn, v in svv.items():
                 g = evv.get(vn)
-                if g and (g["isDeprecated"] != bool(v["deprecated"]) or (v["deprecated"] and g["deprecationReason"] != v["deprecated"])): pr.append(f"{n}.{vn}: deprecation mismatch")
-            if sorted(x["name"] for x in (e["curv"] or [])) != sorted(vn for vn, v in svv.items() if not v["deprecated"]): pr.append(f"{n}: enumValues default filter wrong")
+                if g and (g["isDeprecated"] != (v["deprecated"] is not None) or (v["deprecated"] is not None and g["deprecationReason"] != v["deprecated"])): pr.append(f"{n}.{vn}: deprecation {g['isDeprecated']}/{g['deprecationReason']!r} != declared reason {v['deprecated']!r}")
+            if sorted(x["name"] for x in (e["curv"] or [])) != sorted(vn for vn, v in svv.items() if v["deprecated"] is None): pr.append(f"{n}: enumValues default filter wrong")
         if t["inputFields"] is not None:
             cmp_args(n, t["inputFields"], e["inputFields"] or [])
     sd = {d["name"]: d for d in spec["directives"]}; ed = {d["name"]: d for d in s["directives"]}
@@ -321,7 +321,7 @@ if __name__ == "__main__":
                      "failed_dependency": b.get("failed_dependency"), "build_log_tail": b["build_log"][-1500:], "schemas_checked": st["evaluations"]}, no_input=True)
     cov = fw.proof_coverage(b, {
         "evaluations": st["evaluations"], "distinct_nontrivial": len(st["nontrivial"]),
-        "rule": "generated SDL-level models (objects, interfaces with several implementers, unions, enums, recursive input objects with defaults, custom scalars, custom directive definitions, @deprecated with and without reason on fields and enum values, @nonIntrospectable fields, renamed root types) whose definitions are randomly split into base definitions and one or two `extend` definitions per type (fields, values, members, interfaces), shuffled, and supplied as string / file / list of files / directory with .sdl and .graphql files; the engine's answer to the full introspection query (+ includeDeprecated variants, + __type(name:) for every name and unknown names) is compared with Spec.I.describe computed by the Lean driver; non-trivial = distinct model",
+        "rule": "generated SDL-level models (objects, interfaces with several implementers, unions, enums, recursive input objects with defaults, custom scalars, custom directive definitions, @deprecated with, without and with an empty reason on fields and enum values, @nonIntrospectable fields, renamed root types) whose definitions are randomly split into base definitions and one or two `extend` definitions per type (fields, values, members, interfaces), shuffled, and supplied as string / file / list of files / directory with .sdl and .graphql files; the engine's answer to the full introspection query (+ includeDeprecated variants, + __type(name:) for every name and unknown names) is compared with Spec.I.describe computed by the Lean driver; non-trivial = distinct model",
         "supplied_as": st["modes"], "models_with_extensions": st["with_extensions"], "known_finding_hits": st["known"], "problems": len(st["problems"]), "samples": st["samples"] or [{"note": "none"}]})
     sys.exit(v.finish("proof", cov, ["SDL text -> definitions (lark grammar, node/schema transformers) is not modelled: covered by this correspondence only",
                                      "interface implementations are generated invariant (covariant ones are rejected by the engine: KF-C11-1)"]))
